@@ -306,6 +306,8 @@ def step (d : DState) (args : List String) : DState × String :=
     let S := { d.S.dropAll with errors := [] }
     let (d, out) := finish d (.ok S)
     ({ d with S := { cfg := S.cfg, calls := S.calls } }, out)
+  | ["cleanup"] =>
+    if d.dead then (d, "dead") else finish d (.ok d.S.cleanupAll)
   | ["probe"] =>
     if d.dead then (d, "dead") else
     let objs := d.S.objects.map (·.st)
